@@ -229,6 +229,16 @@ func genVariants(r *rand.Rand, c *capture, all []*capture, idsByIP map[netip.Add
 			break
 		}
 	}
+	// an announcement that already carries hop records, delivered on the link of its origin (the outermost signer
+	// is not the delivering peer)
+	if depthN >= 1 && c.sender.IP != c.origin {
+		for _, other := range c.ids {
+			if other.IP == c.origin {
+				vs = append(vs, variant{op: "delivered-by-origin-with-hop-records", data: c.data, viaPeer: other, field: "link", depth: depthN})
+				break
+			}
+		}
+	}
 	// source rewritten to another known router
 	for _, other := range c.ids {
 		if other.IP != c.origin {
